@@ -771,7 +771,9 @@ func c16GC(free bool) {
 
 // c16Op is one operation of a history.  Tok is the token sent to the model:
 // r<i> ReadRows on reader i, t<i> typed read, k<i> clone the rows of the batch
-// last returned by reader i, s<i> SeekToRow, c<i> Close, x churn, g GC.
+// last returned by reader i, s<i> SeekToRow, z<i> Reset (Reader.Reset,
+// GenericReader.Reset, the Reset method of row group row readers; the model
+// replays it as a seek to row 0), c<i> Close, x churn, g GC.
 type c16Op struct {
 	Tok   string `json:"op"`
 	N     int    `json:"n,omitempty"`              // batch size
@@ -782,7 +784,7 @@ type c16Op struct {
 
 type c16ReaderSpec struct {
 	File  c16FileSpec `json:"file"`
-	Kind  string      `json:"kind"` // rows | reader | generic | whole
+	Kind  string      `json:"kind"` // rows | rowreader (NewRowGroupRowReader) | reader | generic | whole
 	RG    int         `json:"row_group,omitempty"`
 	Async bool        `json:"async,omitempty"`
 }
@@ -850,7 +852,7 @@ func c16Entitled(nreaders int, ops []c16Op) (ent [][]int, src []int) {
 					s = cur[i]
 					forever = append(forever, j)
 				}
-			case 's':
+			case 's', 'z':
 				cur[i] = -1
 			case 'c':
 				cur[i] = -1
@@ -1005,6 +1007,12 @@ func c16NewReader(spec c16ReaderSpec, files map[string]*parquet.File) (*c16Reade
 		}
 		r.rows = f.RowGroups()[spec.RG].Rows()
 		r.off, r.total = b.rgOff[spec.RG], b.rgRows[spec.RG]
+	case "rowreader":
+		if spec.RG >= len(b.rgRows) {
+			return nil, fmt.Errorf("no row group %d", spec.RG)
+		}
+		r.rows = parquet.NewRowGroupRowReader(f.RowGroups()[spec.RG])
+		r.off, r.total = b.rgOff[spec.RG], b.rgRows[spec.RG]
 	case "reader":
 		r.rd = parquet.NewReader(f)
 	case "generic":
@@ -1102,6 +1110,26 @@ func (r *c16Reader) seek(k int64) error {
 		return r.rd.SeekToRow(k)
 	case r.gr != nil:
 		return r.gr.SeekToRow(k)
+	}
+	return nil
+}
+
+// reset puts the reader back at its first row: Reader.Reset,
+// GenericReader.Reset, and the Reset method row group row readers have
+// (reader.Reset uses it through interface{ Reset() }; SeekToRow(0) for a Rows
+// without it).
+func (r *c16Reader) reset() error {
+	switch {
+	case r.rows != nil:
+		if z, ok := r.rows.(interface{ Reset() }); ok {
+			z.Reset()
+			return nil
+		}
+		return r.rows.SeekToRow(0)
+	case r.rd != nil:
+		r.rd.Reset()
+	case r.gr != nil:
+		r.gr.Reset()
 	}
 	return nil
 }
@@ -1302,6 +1330,15 @@ func c16ExecHistBody(cs *c16HistCase) (o *c16Outcome) {
 			if err == nil {
 				rd.pos = op.K
 			}
+		case 'z':
+			err := rd.reset()
+			if err != nil && !rd.closed {
+				o.fail("error", -1, j, "op %d %s: Reset on %d rows: %v", j, op.Tok, rd.total, err)
+				return o
+			}
+			if err == nil {
+				rd.pos = 0
+			}
 		case 'c':
 			if err := rd.close(); err != nil {
 				o.fail("error", -1, j, "op %d %s: Close: %v", j, op.Tok, err)
@@ -1404,7 +1441,7 @@ func c16VmAdd(c *core.Ctx, nreaders int, toks string, ent [][]int) {
 			ops = append(ops, "OReadTyped "+arg+" 1")
 		case 'k':
 			ops = append(ops, "OClone "+arg)
-		case 's':
+		case 's', 'z':
 			ops = append(ops, "OSeek "+arg+" 0")
 		case 'c':
 			ops = append(ops, "OClose "+arg)
@@ -1599,11 +1636,11 @@ func c16GenHist(rng *rand.Rand, pool []c16FileSpec, maxOps int) *c16HistCase {
 		rs := c16ReaderSpec{File: spec, Async: rng.Intn(4) == 0}
 		total := b.total
 		if spec.Typed {
-			rs.Kind = []string{"rows", "reader", "generic", "generic", "whole"}[rng.Intn(5)]
+			rs.Kind = []string{"rows", "rowreader", "reader", "generic", "generic", "whole"}[rng.Intn(6)]
 		} else {
-			rs.Kind = []string{"rows", "reader"}[rng.Intn(2)]
+			rs.Kind = []string{"rows", "rowreader", "reader"}[rng.Intn(3)]
 		}
-		if rs.Kind == "rows" {
+		if rs.Kind == "rows" || rs.Kind == "rowreader" {
 			rs.RG = rng.Intn(len(b.rgRows))
 			total = b.rgRows[rs.RG]
 		}
@@ -1611,7 +1648,7 @@ func c16GenHist(rng *rand.Rand, pool []c16FileSpec, maxOps int) *c16HistCase {
 			rs.Async = false
 		}
 		cs.Readers = append(cs.Readers, rs)
-		infos = append(infos, info{total: total, typed: spec.Typed && rs.Kind != "rows", kind: rs.Kind})
+		infos = append(infos, info{total: total, typed: spec.Typed && rs.Kind != "rows" && rs.Kind != "rowreader", kind: rs.Kind})
 	}
 	n := 4 + rng.Intn(maxOps-3)
 	for len(cs.Ops) < n {
@@ -1638,11 +1675,19 @@ func c16GenHist(rng *rand.Rand, pool []c16FileSpec, maxOps int) *c16HistCase {
 			}
 		case x < 55:
 			cs.Ops = append(cs.Ops, c16Op{Tok: tok('k')})
-		case x < 67:
+		case x < 64:
 			if in.kind != "whole" {
 				cs.Ops = append(cs.Ops, c16Op{Tok: tok('s'), K: rng.Int63n(in.total + 1)})
 			}
 		case x < 70:
+			// Reset, mostly followed at once by a read that crosses pages
+			if in.kind != "whole" {
+				cs.Ops = append(cs.Ops, c16Op{Tok: tok('z')})
+				if rng.Intn(3) != 0 {
+					cs.Ops = append(cs.Ops, c16Op{Tok: tok('r'), N: c16BatchSizes[3+rng.Intn(len(c16BatchSizes)-3)]})
+				}
+			}
+		case x < 73:
 			cs.Ops = append(cs.Ops, c16Op{Tok: tok('c')})
 		case x < 95:
 			cs.Ops = append(cs.Ops, c16Op{Tok: "x"})
@@ -2473,7 +2518,7 @@ func runC16(c *core.Ctx) {
 			os.RemoveAll(c16TmpDir)
 		}
 	}()
-	c.Res.Rule = "Pools poison what is returned to them. FILES of known content: typed files of c16Rec rows (int64, string, dictionary string, []byte, [16]byte, [5]byte, uuid, *string, []string, nested struct with string/*string/[]byte, map[string]string; cell lengths 0..300; written row by row so every value is known) over every byte array encoding (default, plain, delta length, delta byte array, dictionary) x codec (none snappy gzip brotli zstd lz4) x data page v1/v2 x page buffer 64..4096 x 1..n row groups, and generated generic files (gen.Case, >= 2 byte array leaves, nested/optional/repeated). HISTORIES of 4..40 operations over 2..4 readers (RowGroup.Rows, parquet.Reader, GenericReader[T], parquet.Read/ReadFile; sync and async) of possibly different files: ReadRows (1..200 rows, sometimes into recycled rows), typed reads (sometimes into the previous destination whose shallow copies the caller kept), Row.Clone of the last batch, SeekToRow, Close, churn (other files read by rows and by pages, files written with all codecs, buffers filled/sorted/reset, in this and 2..4 other goroutines), GC (+FreeOSMemory). Every batch is compared with the file content at once and with its deep snapshot after every later operation for as long as the caller is entitled to it (rows until the next call on the same reader; Go values and clones for ever, also after Close and a final churn); the entitlement sets are computed in Go and compared with the model. PAGES: values and dictionary values of 1..3 pages held until Release under churn. BUFFERS: Buffer/GenericBuffer written in several batches (Write/WriteRows), read back after every batch, after sort.Sort (4 sort keys incl. ties and empty strings) and Reset; clones and Go values held across later writes, sort, Reset. CALLER SLICES: 13 write entry points x sorting config x repeated rows, inputs unsorted with spare capacity holding sentinels; full canonical form (contents, order, addresses, capacity region) before vs after write, sort, flush, close, churn. A case is non-trivial when at least one non-empty byte array value was held across at least one churn or GC (caller cases: more than one row); distinct by the JSON of the case."
+	c.Res.Rule = "Pools poison what is returned to them. FILES of known content: typed files of c16Rec rows (int64, string, dictionary string, []byte, [16]byte, [5]byte, uuid, *string, []string, nested struct with string/*string/[]byte, map[string]string; cell lengths 0..300; written row by row so every value is known) over every byte array encoding (default, plain, delta length, delta byte array, dictionary) x codec (none snappy gzip brotli zstd lz4) x data page v1/v2 x page buffer 64..4096 x 1..n row groups, and generated generic files (gen.Case, >= 2 byte array leaves, nested/optional/repeated). HISTORIES of 4..40 operations over 2..4 readers (RowGroup.Rows, NewRowGroupRowReader, parquet.Reader, GenericReader[T], parquet.Read/ReadFile; sync and async) of possibly different files: ReadRows (1..200 rows, sometimes into recycled rows), typed reads (sometimes into the previous destination whose shallow copies the caller kept), Row.Clone of the last batch, SeekToRow, Reset of every reader kind (Reader.Reset, GenericReader.Reset, the Reset method of row group row readers; mostly followed at once by a ReadRows of 5..200 rows, the reader is used on after it, also after Close), Close, churn (other files read by rows and by pages, files written with all codecs, buffers filled/sorted/reset, in this and 2..4 other goroutines), GC (+FreeOSMemory). Every batch is compared with the file content at once and with its deep snapshot after every later operation for as long as the caller is entitled to it (rows until the next call on the same reader; Go values and clones for ever, also after Close and a final churn); the entitlement sets are computed in Go and compared with the model. PAGES: values and dictionary values of 1..3 pages held until Release under churn. BUFFERS: Buffer/GenericBuffer written in several batches (Write/WriteRows), read back after every batch, after sort.Sort (4 sort keys incl. ties and empty strings) and Reset; clones and Go values held across later writes, sort, Reset. CALLER SLICES: 13 write entry points x sorting config x repeated rows, inputs unsorted with spare capacity holding sentinels; full canonical form (contents, order, addresses, capacity region) before vs after write, sort, flush, close, churn. A case is non-trivial when at least one non-empty byte array value was held across at least one churn or GC (caller cases: more than one row); distinct by the JSON of the case."
 	if err := c16ChurnInit(); err != nil {
 		c.Violation("file", "cannot write the churn files: "+err.Error(), nil)
 		return
@@ -2529,7 +2574,9 @@ func runC16(c *core.Ctx) {
 			cs := &c16HistCase{Part: "hist", ChurnSeed: int64(k), Workers: 2 * (k % 2),
 				Readers: []c16ReaderSpec{{File: spec, Kind: "rows", Async: async}, {File: spec, Kind: "generic", Async: async}, {File: other, Kind: "reader"}, {File: other, Kind: "whole"}},
 				Ops: []c16Op{{Tok: "r0", N: 17}, {Tok: "t1", N: 5}, {Tok: "x"}, {Tok: "k0"}, {Tok: "s0", K: 3}, {Tok: "g"}, {Tok: "r0", N: 200}, {Tok: "x"},
-					{Tok: "r2", N: 64}, {Tok: "t2", N: 3}, {Tok: "t3"}, {Tok: "x"}, {Tok: "r1", N: 5}, {Tok: "k1"}, {Tok: "c1"}, {Tok: "x"}, {Tok: "t3", N: 1}, {Tok: "c0"}, {Tok: "c2"}, {Tok: "g", Free: true}, {Tok: "x"}}}
+					{Tok: "r2", N: 64}, {Tok: "t2", N: 3}, {Tok: "t3"}, {Tok: "x"}, {Tok: "r1", N: 5}, {Tok: "k1"},
+					{Tok: "z0"}, {Tok: "r0", N: 64}, {Tok: "x"}, {Tok: "z1"}, {Tok: "r1", N: 200}, {Tok: "x"}, {Tok: "t1", N: 3}, {Tok: "z2"}, {Tok: "r2", N: 17}, {Tok: "r2", N: 200}, {Tok: "x"}, {Tok: "z1"}, {Tok: "t1", N: 5},
+					{Tok: "c1"}, {Tok: "z1"}, {Tok: "r1", N: 3}, {Tok: "x"}, {Tok: "t3", N: 1}, {Tok: "c0"}, {Tok: "c2"}, {Tok: "g", Free: true}, {Tok: "x"}}}
 			c16RunHist(c, cs, "held/corpus")
 			if k == 0 && !async {
 				c.Sample(cs)
